@@ -276,7 +276,7 @@ fn cmd_check(prop: &str, tier: Tier) -> i32 {
     for b in &plan.batches {
         let res = run_batch(b, prop, tier, seed, hashes);
         println!(
-            "  batch {}/{}: runs={} evaluations={} distinct={} unexplained_failing_runs={} deaths={} wall={:.1}s",
+            "  batch {}/{}: runs={} evaluations={} distinct={} unexplained_failing_runs={} deaths={} wall={:.1}s slowest_run={}ms(#{})",
             b.world,
             b.mode,
             res.runs,
@@ -284,13 +284,18 @@ fn cmd_check(prop: &str, tier: Tier) -> i32 {
             res.fps.len(),
             res.fails.len(),
             res.deaths.len(),
-            res.wall_s
+            res.wall_s,
+            res.slowest_ms,
+            res.slowest_run
         );
         herr.extend(res.harness_errors.iter().cloned());
         for l in &res.lanes_stopped {
             println!("  note: {l}");
         }
-        if res.runs + (res.deaths.len() as u64) < b.runs && res.harness_errors.is_empty() && res.lanes_stopped.is_empty() {
+        for l in &res.transient_deaths {
+            println!("  note: {l}");
+        }
+        if res.runs + res.runs_unsummarised + (res.deaths.len() as u64) < b.runs && res.harness_errors.is_empty() && res.lanes_stopped.is_empty() {
             herr.push(format!("batch {}/{} completed {} of {} runs", b.world, b.mode, res.runs, b.runs));
         }
         let (viol, rule, comps) = with_world!(b.world, triage_batch, b, &res, prop, tier, seed, &open, &mut herr);
